@@ -773,3 +773,7 @@ def check(run, replay=None):
     for c, ngs in seen_cls.items():
         if len(ngs) < 5:
             run.inconc("grain class %s only ran with grain counts %r" % (c, ngs))
+
+
+# workloads added in seeding rounds 7-10 (DESIGN.md sections 13.9-13.12)
+LEVEL_TEXT = LEVEL_TEXT + ' Later additions: tolerances 0.7 and 0.9 (3-D error up to sqrt(3)/2); peak lists of 1-4 g-vectors on the indexer route.'
